@@ -16,10 +16,10 @@ git checkout -q -- . 2>/dev/null
 NEEDBUILD=$(grep -c '^diff.*\.\(pyx\|pxi\|pxd\)' "$OUT/patch.diff")
 build() { if [ "$NEEDBUILD" != "0" ]; then (cd "$W" && /venv/bin/python setup.py build_ext --inplace -q >/dev/null 2>&1); fi; }
 build
-timeout 900 /venv/bin/python "$OUT/demo.py" >"$OUT/demo_without.log" 2>&1; RC0=$?
+timeout 900 /venv/bin/python "$W/out/demo.py" >"$OUT/demo_without.log" 2>&1; RC0=$?
 git apply "$OUT/patch.diff" || { echo "patch does not apply"; exit 3; }
 build
-timeout 900 /venv/bin/python "$OUT/demo.py" >"$OUT/demo_with.log" 2>&1; RC1=$?
+timeout 900 /venv/bin/python "$W/out/demo.py" >"$OUT/demo_with.log" 2>&1; RC1=$?
 timeout 1800 /venv/bin/python -m pytest -q -p no:cacheprovider --timeout=900 >"$OUT/tests_with.log" 2>&1; RCT=$?
 TESTS=$(tail -1 "$OUT/tests_with.log")
 cd /verif
